@@ -8,6 +8,10 @@ and the text on both sides of the dot is valid UTF-8.  All theorems hold for
 every `Env` (every `unicode.*` / `wcwidth.OfRune` table).
 -/
 import ElvProofs.C28.MoverSpec
+import ElvProofs.C28.TransformSpec
+import ElvProofs.C28.WordSpec
+import ElvProofs.C28.UpDownSpec
+import ElvProofs.C28.CodeAreaSpec
 open Go C28
 
 /-- `a世b` with the dot after `a`. -/
@@ -44,3 +48,196 @@ theorem C28_kill_exact (E : Env) (m : Mover) (buf : Bytes) (dot : Int) (h : Boun
 /-- non-vacuity: `kill-word-left` on `ab cd|` really deletes `cd`. -/
 example : (Cmd.kill .leftWord).fn ⟨fun r => r == 32, fun _ => true, fun _ => false, fun _ => true, fun _ => false, fun _ => 1⟩
     [0x61, 0x62, 0x20, 0x63, 0x64] 5 = .ok ([0x61, 0x62, 0x20], 3) := by decide
+
+/-- Transpose commands (`transpose-rune`, `-word`, `-small-word`, `-alnum-word`)
+cut the buffer into five pieces of whole characters `a l m r z` and exchange
+`l` and `r`; the dot ends after the exchanged region, on a boundary.  (The
+"nothing to transpose" cases are the instance `l = m = r = []`, `a = buf[:dot]`.) -/
+theorem C28_transpose_swap (E : Env) (t : Transformer) (buf : Bytes) (dot : Int) (h : Boundary buf dot) :
+    ∃ a l m r z : Bytes,
+      buf = a ++ l ++ m ++ r ++ z ∧
+      validUtf8 a = true ∧ validUtf8 l = true ∧ validUtf8 m = true ∧ validUtf8 r = true ∧ validUtf8 z = true ∧
+      (Cmd.transform t).fn E buf dot = .ok (a ++ r ++ m ++ l ++ z, ((a ++ r ++ m ++ l).length : Int)) ∧
+      Boundary (a ++ r ++ m ++ l ++ z) ((a ++ r ++ m ++ l).length : Int) := by
+  obtain ⟨a, l, m, r, z, h1, va, vl, vm, vr, vz, h2⟩ := t.swap E buf dot h
+  refine ⟨a, l, m, r, z, h1, va, vl, vm, vr, vz, h2, by omega, by simp only [List.length_append]; omega, ?_, ?_⟩
+  · rw [Int.toNat_natCast, List.take_left' rfl]
+    exact validUtf8_append (validUtf8_append (validUtf8_append va vr) vm) vl
+  · rw [Int.toNat_natCast, List.drop_left' rfl]; exact vz
+
+/-- Transpose commands only reorder text: the runes of the result are a
+permutation of the runes of the input (nothing added, nothing dropped). -/
+theorem C28_transpose_perm (E : Env) (t : Transformer) (buf : Bytes) (dot : Int) (h : Boundary buf dot) :
+    ∃ out d', (Cmd.transform t).fn E buf dot = .ok (out, d') ∧ Boundary out d' ∧
+      (toRunes out).Perm (toRunes buf) := by
+  obtain ⟨a, l, m, r, z, h1, va, vl, vm, vr, vz, h2, h3⟩ := C28_transpose_swap E t buf dot h
+  refine ⟨_, _, h2, h3, ?_⟩
+  have e1 : toRunes (a ++ r ++ m ++ l ++ z) = toRunes a ++ toRunes r ++ toRunes m ++ toRunes l ++ toRunes z := by
+    rw [toRunes_append (validUtf8_append (validUtf8_append (validUtf8_append va vr) vm) vl) vz,
+      toRunes_append (validUtf8_append (validUtf8_append va vr) vm) vl,
+      toRunes_append (validUtf8_append va vr) vm, toRunes_append va vr]
+  have e2 : toRunes buf = toRunes a ++ toRunes l ++ toRunes m ++ toRunes r ++ toRunes z := by
+    rw [h1, toRunes_append (validUtf8_append (validUtf8_append (validUtf8_append va vl) vm) vr) vz,
+      toRunes_append (validUtf8_append (validUtf8_append va vl) vm) vr,
+      toRunes_append (validUtf8_append va vl) vm, toRunes_append va vl]
+  rw [e1, e2]
+  simp only [List.append_assoc]
+  apply List.Perm.append_left
+  rw [← List.append_assoc, ← List.append_assoc, ← List.append_assoc (toRunes l), ← List.append_assoc (toRunes l ++ toRunes m)]
+  apply List.Perm.append_right
+  have p1 : (toRunes r ++ toRunes m ++ toRunes l).Perm (toRunes l ++ (toRunes r ++ toRunes m)) :=
+    List.perm_append_comm
+  have p2 : (toRunes l ++ (toRunes r ++ toRunes m)).Perm (toRunes l ++ (toRunes m ++ toRunes r)) :=
+    List.Perm.append_left _ List.perm_append_comm
+  rw [List.append_assoc (toRunes l)]
+  exact p1.trans p2
+
+/-- non-vacuity: `transpose-word` on `ab cd` with the dot after `ab` gives `cd ab`. -/
+example : (Cmd.transform .word).fn ⟨fun r => r == 32, fun _ => true, fun _ => false, fun _ => true, fun _ => false, fun _ => 1⟩
+    [0x61, 0x62, 0x20, 0x63, 0x64] 2 = .ok ([0x63, 0x64, 0x20, 0x61, 0x62], 5) := by decide
+
+/-- Moving left one word (any flavour) lands on the nearest word start strictly
+left of the dot — the start of the buffer if there is none: the result is a
+word start or 0, and no boundary strictly between it and the old dot is a word
+start. -/
+theorem C28_word_left_lands_on_word_start (E : Env) (f : Flavour) (buf : Bytes) (dot : Int)
+    (h : Boundary buf dot) :
+    ∃ d', f.left.fn E buf dot = .ok d' ∧ 0 ≤ d' ∧ d' ≤ dot ∧ (0 < dot → d' < dot) ∧
+      (d' = 0 ∨ WordStart (f.cat E) buf d'.toNat) ∧
+      (∀ p : Int, Boundary buf p → d' < p → p < dot → ¬ WordStart (f.cat E) buf p.toNat) := by
+  cases f <;> exact wordLeft_spec _ buf dot h
+
+/-- Moving right one word lands on the nearest word start strictly right of
+the dot — the end of the buffer if there is none. -/
+theorem C28_word_right_lands_on_word_start (E : Env) (f : Flavour) (buf : Bytes) (dot : Int)
+    (h : Boundary buf dot) :
+    ∃ d', f.right.fn E buf dot = .ok d' ∧ dot ≤ d' ∧ d' ≤ buf.length ∧ (dot < buf.length → dot < d') ∧
+      (d' = buf.length ∨ WordStart (f.cat E) buf d'.toNat) ∧
+      (∀ p : Int, Boundary buf p → dot < p → p < d' → ¬ WordStart (f.cat E) buf p.toNat) := by
+  cases f <;> exact wordRight_spec _ buf dot h
+
+/-- non-vacuity: in `ab--cd` the small word `--` starts at offset 2 and offset 1 is no word start. -/
+example : WordStart (categorizeSmallWord ⟨fun r => r == 32, fun r => 97 ≤ r && r ≤ 122, fun _ => false, fun _ => true, fun _ => false, fun _ => 1⟩)
+    [0x61, 0x62, 0x2d, 0x2d, 0x63, 0x64] 2 := by unfold WordStart; decide
+
+/-- `move-dot-up`: on the first line the dot stays; otherwise it goes to the
+previous line, at a display column not larger than the original one. -/
+theorem C28_up_keeps_column (E : Env) (buf : Bytes) (dot : Int) (h : Boundary buf dot) :
+    ∃ d', Mover.up.fn E buf dot = .ok d' ∧ Boundary buf d' ∧
+      (lineStart buf dot.toNat = 0 → d' = dot) ∧
+      (lineStart buf dot.toNat ≠ 0 →
+        d' ≤ (lineStart buf dot.toNat : Int) - 1 ∧
+        lineStart buf d'.toNat = lineStart buf (lineStart buf dot.toNat - 1) ∧
+        column E buf d'.toNat ≤ column E buf dot.toNat) :=
+  up_spec E buf dot h
+
+/-- `move-dot-down`: on the last line the dot stays; otherwise it goes to the
+next line (whose start is one past the end of the current line), at a display
+column not larger than the original one. -/
+theorem C28_down_keeps_column (E : Env) (buf : Bytes) (dot : Int) (h : Boundary buf dot) :
+    ∃ d', Mover.down.fn E buf dot = .ok d' ∧ Boundary buf d' ∧
+      (dot.toNat + findFirstEOL (buf.drop dot.toNat) = buf.length → d' = dot) ∧
+      (dot.toNat + findFirstEOL (buf.drop dot.toNat) ≠ buf.length →
+        ((dot.toNat + findFirstEOL (buf.drop dot.toNat) + 1 : Nat) : Int) ≤ d' ∧
+        lineStart buf d'.toNat = dot.toNat + findFirstEOL (buf.drop dot.toNat) + 1 ∧
+        column E buf d'.toNat ≤ column E buf dot.toNat) :=
+  down_spec E buf dot h
+
+/-! ### The code area: key, paste and builtin events -/
+
+/-- Every builtin of `bufferBuiltinsData`, run on a valid buffer with the dot on
+a boundary, returns normally with a valid buffer and the dot on a boundary. -/
+theorem C28_builtin_preserves_boundary (E : Env) (c : Cmd) (buf : Bytes) (dot : Int) (h : Boundary buf dot) :
+    ∃ buf' dot', c.fn E buf dot = .ok (buf', dot') ∧ Boundary buf' dot' :=
+  c.boundary E buf dot h
+
+/-- all 26 names of `bufferBuiltinsData` are covered by `Cmd` -/
+example : bufferBuiltinsData.length = 26 ∧ (bufferBuiltinsData.map (·.1)).Nodup := by decide
+
+/-- Bracketed paste: the start marker edits nothing; the end marker inserts the
+accumulated text verbatim at the dot — quoted by `parse.Quote` exactly when
+`QuotePaste()` says so — and the invariant is kept. -/
+theorem C28_paste_exact (S : Spec) (hS : SpecOK S) (s : State) (h : Inv s) (start : Bool) :
+    ∃ s', handlePasteSetting S s start = .ok s' ∧ Inv s' ∧
+      (start = true → s'.buffer = s.buffer ∧ s'.pasting = true ∧ s'.pasteBuffer = s.pasteBuffer) ∧
+      (start = false →
+        let text := if S.quotePaste then S.quote s.pasteBuffer else s.pasteBuffer
+        s'.buffer = Inserted s.buffer text ∧ s'.pasting = false ∧ s'.pasteBuffer = []) :=
+  handlePasteSetting_spec S hS s h start
+
+/-- During a bracketed paste, keys never edit the buffer: non-function keys
+append exactly `string(rune)` to the paste buffer, function keys are ignored. -/
+theorem C28_key_during_paste (E : Env) (S : Spec) (s : State) (key : Key) (hp : s.pasting = true) :
+    handleKeyEvent E S s key = .ok
+      ({ s with pasteBuffer := s.pasteBuffer ++ (if key.isFunc then [] else encodeRune key.rune.toNat) }, true) := by
+  by_cases hf : key.isFunc = true
+  · rw [hke_pasting_func E S s key hp hf]; simp [hf]
+  · have hf' : key.isFunc = false := by simpa using hf
+    rw [hke_pasting E S s key hp hf']; simp [hf']
+
+/-- Backspace (and Ctrl-H) delete exactly the rune before the dot. -/
+theorem C28_backspace_exact (E : Env) (S : Spec) (s : State) (key : Key) (h : Inv s)
+    (hp : s.pasting = false) (hk : key.isBackspace) :
+    ∃ s', handleKeyEvent E S s key = .ok (s', true) ∧ Inv s' ∧
+      (let chop : Int := (decodeLastRune (s.buffer.content.take s.buffer.dot.toNat)).2
+       s'.buffer = ⟨s.buffer.content.take (s.buffer.dot - chop).toNat ++ s.buffer.content.drop s.buffer.dot.toNat,
+         s.buffer.dot - chop⟩) := by
+  obtain ⟨b', he, hb', hbnd⟩ := backspace_spec s h
+  refine ⟨{ resetInserts s with buffer := b' }, ?_, ⟨hbnd, ⟨[], by simp [resetInserts]⟩, h.paste⟩, hb'⟩
+  rw [hke_backspace E S s key hp hk]; exact he
+
+/-- Enter, function keys and non-graphic runes do not edit the buffer. -/
+theorem C28_key_non_inserting (E : Env) (S : Spec) (s : State) (key : Key) (h : Inv s)
+    (hp : s.pasting = false) (hbs : ¬ key.isBackspace)
+    (hk : key = ⟨10, 0⟩ ∨ (key.isFunc || !(E.isGraphic key.rune.toNat)) = true) :
+    ∃ s' ret, handleKeyEvent E S s key = .ok (s', ret) ∧ Inv s' ∧ s'.buffer = s.buffer := by
+  by_cases hent : key = ⟨10, 0⟩
+  · rw [hent]; exact ⟨resetInserts s, true, hke_enter E S s hp, inv_reset h, rfl⟩
+  · rcases hk with hk | hk
+    · exact absurd hk hent
+    · exact ⟨resetInserts s, false, hke_other E S s key hp hent hbs hk, inv_reset h, rfl⟩
+
+/-- A graphic key inserts exactly `string(rune)` at the dot; afterwards at most
+one abbreviation fires, and it replaces exactly the abbreviation (ending at
+the dot, or just before the typed trigger rune) by its expansion
+(`KeyInsertEffect`, ElvModel/C28/Spec.lean).  No slice expression of
+`expandSimpleAbbr` / `expandCommandAbbr` / `expandSmallWordAbbr` panics. -/
+theorem C28_key_insert_exact (E : Env) (S : Spec) (hS : SpecOK S) (s : State) (key : Key) (h : Inv s)
+    (hp : s.pasting = false) (hne : key ≠ ⟨10, 0⟩) (hbs : ¬ key.isBackspace)
+    (hg : (key.isFunc || !(E.isGraphic key.rune.toNat)) = false) :
+    ∃ s', handleKeyEvent E S s key = .ok (s', true) ∧ Inv s' ∧
+      KeyInsertEffect S s.buffer s'.buffer (encodeRune key.rune.toNat) :=
+  key_insert_spec E S hS s key h hp hne hbs hg
+
+/-- Every event (key, paste marker, builtin command) keeps the invariant: the
+buffer stays valid UTF-8 with the dot inside it on a character boundary. -/
+theorem C28_step_preserves_invariant (E : Env) (S : Spec) (hS : SpecOK S) (s : State) (ev : Event) (h : Inv s) :
+    ∃ s' ret, step E S s ev = .ok (s', ret) ∧ Inv s' :=
+  step_inv E S hS s ev h
+
+/-- Lifted over arbitrary event sequences by induction: starting from a fresh
+code area whose buffer is valid with the dot on a boundary, no sequence of
+keys, paste markers and builtin commands panics, and the buffer is valid with
+the dot on a boundary afterwards. -/
+theorem C28_sequence_safe (E : Env) (S : Spec) (hS : SpecOK S) (b : CodeBuffer)
+    (hb : Boundary b.content b.dot) (evs : List Event) :
+    ∃ s', runEvents E S (initState b) evs = .ok s' ∧ Boundary s'.buffer.content s'.buffer.dot := by
+  have hi : Inv (initState b) := ⟨hb, ⟨[], by simp [initState]⟩, rfl⟩
+  obtain ⟨s', h1, h2⟩ := runEvents_inv E S hS (initState b) evs hi
+  exact ⟨s', h1, h2.bnd⟩
+
+/-- non-vacuity of the hypotheses: a configuration with abbreviations and an empty fresh buffer. -/
+example : SpecOK ⟨[([0x78, 0x78], [0xC3, 0xA9])], [], [([0x67], [0x67, 0x69, 0x74])], false, id⟩ ∧
+    Inv (initState ⟨[], 0⟩) := by
+  refine ⟨⟨?_, ?_, ?_, fun _ h => h⟩, ⟨by unfold Boundary; decide, ⟨[], by simp [initState]⟩, rfl⟩⟩
+  · intro p hp; simp at hp; subst hp; decide
+  · intro p hp; simp at hp
+  · intro p hp; simp at hp; subst hp; decide
+
+/-- non-vacuity: with the simple abbreviation `xx ↦ é` configured, typing `x` `x`
+into an empty buffer really goes through the expansion path and yields `é`. -/
+example :
+    (runEvents ⟨fun r => r == 32, fun _ => true, fun _ => false, fun _ => true, fun _ => false, fun _ => 1⟩
+      ⟨[([0x78, 0x78], [0xC3, 0xA9])], [], [], false, id⟩ (initState ⟨[], 0⟩)
+      [.key ⟨0x78, 0⟩, .key ⟨0x78, 0⟩]).bind (fun s => .ok (s.buffer.content, s.buffer.dot)) =
+      .ok ([0xC3, 0xA9], 2) := by decide
